@@ -8,7 +8,7 @@ tie   : T-cor - every allocator event (construct/copy/rebind/socc/assign/destroy
 oracle: std::allocator twin, counting base allocator, pool count == live nodes, pool identity after copy/move/swap."""
 import os
 
-GEN = ['gen_uintmath.json', 'gen_poolconst.json']
+GEN = ['gen_uintmath.json', 'gen_poolconst.json', 'gen_mempool.json']
 KINDS = ['list', 'flist', 'map', 'set', 'mmap', 'umap', 'uset']
 PART = {'list': 0, 'flist': 0, 'map': 0, 'set': 0, 'mmap': 1, 'umap': 1, 'uset': 1, 'direct': 1, 'duo': 1, 'retarget': 1}
 TYPES = [(24, 8), (40, 8), (8, 8), (16, 8), (4, 4), (32, 16), (3, 1), (48, 16)]   # harness.cpp TypeOf<>
@@ -21,16 +21,38 @@ REFUTE = ['direct N 0 R 0 1 A 0 1 A 1 1 D 0 0 A 1 1 D 1 1 A 0 1 D 1 2 D 0 3',
           'direct N 5 R 0 4 A 0 1 A 1 1 D 0 0 A 1 1 D 1 1 A 0 1 D 1 2 D 0 3']
 
 
-def params(ty):
+# genuine momo findings reproduced on every run (reported as KNOWN-FINDING once the coordinator adds the `known:` line with this key)
+SHARED_POOL_KEY = 'shared-pool-misroute'
+# fixed in /repo as f8cb4ff (select_on_container_copy_construction was noexcept although it allocates): a directed case on the normal path
+SOCC_NOEXCEPT_CASE = 'list pa n 0 i 0 1 1 fcc 2 0 0 i 0 2 2 fcc 1 0 0'
+
+
+def part_of(c):
+    w = c.split(' ', 2)
+    if w[0] in ('direct4', 'direct1', 'direct127') or (len(w) > 1 and w[1] in ('mon4', 'mon1', 'mon127')): return 3
+    if w[0] == 'elem' or (len(w) > 1 and w[1] in ('pa4', 'pa1', 'pa127')): return 2
+    return PART.get(w[0], 1)
+
+
+CFGS = {'': (32, 16), '4': (4, 0), '1': (1, 2), '127': (127, 1)}      # suffix of pa/mon/direct -> (blockCount, cachedFreeBlockCount)
+
+
+def params(ty, bc=32):
     s, a = TYPES[ty]
+    if bc == 1: return (s, a)
     return (2 * a if s <= a else ((s + a - 1) // a) * a, a)
 
 
-def gen_container(r, kind, alloc, nops):
+def gen_container(r, kind, alloc, nops, keys=24):
     ops = ['n 0']
-    if r.chance(1, 2): ops.append('n 1')
+    if r.chance(1, 2): ops.append(r.choice(['n 1', 'ns 1 0']))
     for _ in range(nops):
-        x = r.below(100); a = r.below(3); b = r.below(3); k = r.below(24); aux = r.below(1000)
+        x = r.below(100); a = r.below(3); b = r.below(3); k = r.below(keys); aux = r.below(1000)
+        y = r.below(100)
+        if y < 3: ops.append('ns %d %d' % (a, b)); continue                      # second container from the same allocator object
+        if y < 5: ops.append('%s %d %d %d' % (r.choice(['cca', 'mca']), a, b, r.below(3))); continue
+        if y < 7: ops.append('fcc %d %d %d' % (a, b, r.below(5))); continue       # kth = 0: allocate_shared of the copy's pool fails (f8cb4ff)
+        if y < 9: ops.append('frh %d %d %d' % (a, r.below(70), r.below(2))); continue
         if x < 34: ops.append('i %d %d %d' % (a, k, aux))
         elif x < 38: ops.append('fi %d %d %d %d' % (a, k, aux, r.below(3)))      # insertion with the kth base allocation failing
         elif x < 56: ops.append('e %d %d %d' % (a, k, aux))
@@ -48,24 +70,25 @@ def gen_container(r, kind, alloc, nops):
     return '%s %s %s' % (kind, alloc, ' '.join(ops))
 
 
-def gen_direct(r, nops):
+def gen_direct(r, nops, sfx=''):
     """random allocator-level script that respects the allocator protocol and H (a tiny simulator keeps track)"""
+    bc = CFGS[sfx][0]
     pools = []      # dict(params, count, refs)
     hs = []         # [pool, ty, alive]
     bl = []         # [pool, ty, n, alive]
     out = []
     def live_of(p): return any(b[3] and b[0] == p for b in bl)
     def alive_h(): return [i for i, h in enumerate(hs) if h[2]]
-    def newpool(ty): pools.append({'params': params(ty), 'count': 0, 'refs': 1}); return len(pools) - 1
+    def newpool(ty): pools.append({'params': params(ty, bc), 'count': 0, 'refs': 1}); return len(pools) - 1
     def release(p): pools[p]['refs'] -= 1
     def can_drop(h): p = hs[h][0]; return pools[p]['refs'] > 1 or not live_of(p)
     def do_alloc(h, n):
         p, ty, _ = hs[h]
         if n == 1:
             P = pools[p]
-            if P['params'] != params(ty):
+            if P['params'] != params(ty, bc):
                 if P['count'] != 0: return False          # would violate H
-                P['params'] = params(ty)
+                P['params'] = params(ty, bc)
             P['count'] += 1
         bl.append([p, ty, n, True]); out.append('A %d %d' % (h, n)); return True
     def do_dealloc(h, k):
@@ -98,9 +121,9 @@ def gen_direct(r, nops):
             # an idle pool of other parameters is re-targeted either way
             n = 1 if r.chance(3, 4) else r.choice([2, 3])
             p_, ty_, _ = hs[h]
-            if n == 1 and pools[p_]['params'] != params(ty_):
+            if n == 1 and pools[p_]['params'] != params(ty_, bc):
                 if pools[p_]['count'] != 0: continue          # would violate H
-                pools[p_]['params'] = params(ty_)
+                pools[p_]['params'] = params(ty_, bc)
             out.append('F %d %d %d' % (h, n, r.below(2)))
         else:
             lb = [k for k, b in enumerate(bl) if b[3]]
@@ -115,7 +138,47 @@ def gen_direct(r, nops):
             g0 = [g for g in alive_h() if hs[g][0] == b[0]][0]
             hs.append([b[0], b[1], True]); pools[b[0]]['refs'] += 1; out.append('R %d %d' % (g0, b[1])); cands = [len(hs) - 1]
         do_dealloc(cands[0], k)
-    return 'direct ' + ' '.join(out)
+    return 'direct%s ' % sfx + ' '.join(out)
+
+
+def gen_threshold(r, kind, alloc):
+    """aimed at the pool's buffer boundaries (32 blocks per buffer, look-ahead buffer when the last block of the newest buffer is
+    taken) and its cache (16): grow one container to 32*m + d live nodes with distinct keys, make the NEXT base allocation fail
+    exactly there, go on inserting, erase most, refill across the boundary a second time, with failures again."""
+    ops = ['n 0']; key = [0]
+    def ins(n, fail_every=0):
+        for i in range(n):
+            key[0] += 1
+            if fail_every and i % fail_every == fail_every - 1: ops.append('fi 0 %d %d 0' % (key[0], 2 * r.below(400) + 1))
+            else: ops.append('i 0 %d %d' % (key[0], 2 * r.below(400) + 1))      # odd aux: push_back / insert(pair) variants
+    target = 32 * r.choice([1, 1, 2, 3]) + r.choice([-2, -1, 0, 1])
+    ins(target - 1)
+    for _ in range(3):
+        key[0] += 1; ops.append('fi 0 %d 1 0' % key[0])     # the insertion that needs the look-ahead buffer: base allocator throws
+    ins(r.choice([1, 3, 34]))
+    lo = r.below(max(1, key[0] - 20))
+    for k in range(lo, lo + r.choice([15, 16, 17, 18, 40])): ops.append('e 0 %d 0' % k)     # fill / overflow the cache of 16
+    ins(r.choice([5, 20, 40]), fail_every=r.choice([0, 1, 3]))
+    if r.chance(1, 2):
+        ops.append(r.choice(['cc 1 0', 'mc 1 0', 'ns 1 0']))
+        ins(r.choice([2, 33]))
+    ops.append('c 0'); ins(r.choice([1, 31, 32, 33]), fail_every=r.choice([0, 2]))
+    return '%s %s %s' % (kind, alloc, ' '.join(ops))
+
+
+def gen_elem(r, alloc):
+    ops = []
+    for _ in range(r.choice([10, 40, 90])):
+        x = r.below(100)
+        if x < 35: ops.append('pb %d' % r.below(100))
+        elif x < 45: ops.append('pf %d' % r.below(100))
+        elif x < 60: ops.append('fpb %d %d' % (r.below(100), r.below(2)))
+        elif x < 72: ops.append('pop')
+        elif x < 82: ops.append('e %d' % r.below(50))
+        elif x < 85: ops.append('c')
+        elif x < 92: ops.append('cp')
+        else: ops.append('fcp %d' % r.below(6))
+    return 'elem %s %s' % (alloc, ' '.join(ops))
 
 
 def gen_duo(r, alloc, nphases):
@@ -148,11 +211,12 @@ def gen_duo(r, alloc, nphases):
     return 'duo %s %s' % (alloc, ' '.join(out))
 
 
-def gen_retarget(r):
+def gen_retarget(r, sfx=''):
+    bc, cf = CFGS[sfx]
     while True:
         t1 = r.choice(TYPES); t2 = r.choice(TYPES)
-        if params(TYPES.index(t1)) != params(TYPES.index(t2)): break
-    return 'retarget %d %d %d %d %d' % (t1[0], t1[1], r.choice([0, 1, 2, 5, 15, 16, 17, 18, 31, 32, 33, 40, 70]), t2[0], t2[1])
+        if params(TYPES.index(t1), bc) != params(TYPES.index(t2), bc): break
+    return 'retarget %d %d %d %d %d %d %d' % (bc, cf, t1[0], t1[1], r.choice([0, 1, 2, 5, 15, 16, 17, 18, 31, 32, 33, 40, 70]), t2[0], t2[1])
 
 
 def gen_cases(ctx, scale):
@@ -165,14 +229,42 @@ def gen_cases(ctx, scale):
         cases.append(gen_direct(r, r.choice([10, 40, 120])))
     for i in range(24 * scale):
         cases.append(gen_duo(r, 'pa' if i % 2 else 'mon', r.choice([2, 3, 6])))
+    # --- coverage audit additions ---
+    for kind in KINDS:                                            # buffer / cache thresholds with failures exactly there
+        for alloc in ('pa', 'mon'):
+            for i in range(5 * scale):
+                cases.append(gen_threshold(r, kind, alloc))
+            for i in range(4 * scale):                            # long histories with many keys: several buffers, cache flushes
+                cases.append(gen_container(r, kind, alloc, r.choice([150, 300]) if alloc == 'pa' else 120, keys=r.choice([70, 200])))
+    for alloc in ('pa4', 'pa1', 'pa127'):                         # other pool parameter sets (oracle only)
+        for kind in ('list', 'set', 'umap'):
+            for i in range(5 * scale):
+                cases.append(gen_container(r, kind, alloc, r.choice([20, 60, 140]), keys=r.choice([24, 150])))
+            for i in range(2 * scale):
+                cases.append(gen_threshold(r, kind, alloc))
+        for i in range(3 * scale):
+            cases.append(gen_duo(r, alloc, r.choice([3, 6])))
+    for sfx in ('4', '1', '127'):                                 # the model tie for the non-default configurations
+        for kind in ('list', 'set', 'umap'):
+            for i in range(4 * scale):
+                cases.append(gen_container(r, kind, 'mon' + sfx, r.choice([10, 40, 90]), keys=r.choice([24, 100])))
+            cases.append(gen_threshold(r, kind, 'mon' + sfx))
+        for i in range(25 * scale):
+            cases.append(gen_direct(r, r.choice([10, 40, 120]), sfx))
+        for i in range(3 * scale):
+            cases.append(gen_duo(r, 'mon' + sfx, r.choice([3, 6])))
+    for alloc in ('pa', 'pa4', 'pa1'):                            # elements whose copy constructor throws: construct()/destroy(), node given back
+        for i in range(6 * scale):
+            cases.append(gen_elem(r, alloc))
+    cases.append(SOCC_NOEXCEPT_CASE)
     return cases + REFUTE + [LIBSTDCXX_NODE_HANDLE]
 
 
 def run_harness(ctx, exes, cases, tag):
     """route each case to the harness part that has its container kind; returns output lines (None = crashed)"""
     out = [None] * len(cases); crashed = ''
-    for part in (0, 1):
-        idx = [i for i, c in enumerate(cases) if PART.get(c.split(' ', 1)[0], 1) == part]
+    for part in (0, 1, 2, 3):
+        idx = [i for i, c in enumerate(cases) if part_of(c) == part]
         if not idx: continue
         path = os.path.join(ctx.build, '%s.part%d.cases' % (tag, part))
         open(path, 'w').write('\n'.join(cases[i] for i in idx) + '\n')
@@ -192,6 +284,9 @@ def split(line):
 
 
 def oracle(ctx, cases, lines):
+    findings = []
+    dist = ctx.coverage.setdefault('input_distribution', {})
+    def bump(k, n=1): dist[k] = dist.get(k, 0) + n
     bad = []; info = {'h_violations_outside_claim': 0, 'reparam_events': 0, 'pool_allocs': 0, 'raw_allocs': 0, 'events': 0, 'injected_base_failures': 0}
     for c, l in zip(cases, lines):
         if l is None:
@@ -200,6 +295,19 @@ def oracle(ctx, cases, lines):
         if head.startswith('CRASH'):
             bad.append((c, head, 'the real code crashed: ' + head[:200])); continue
         st = dict(t.split('=', 1) for t in head.split()[1:] if '=' in t)
+        w = c.split()
+        # measured (taken from what the harness reports it executed), per configuration / op / threshold event
+        cfg = w[0] if w[0].startswith('direct') else '%s/%s' % (w[0], w[1])
+        bump('cases:' + cfg)
+        for kv in st.get('opc', '').split(','):
+            if ':' in kv: o_, n_ = kv.split(':'); bump('op:%s:%s' % (w[0], o_), int(n_))
+        for k_ in ('x32', 'cross32', 'flush', 'fromcache', 'reparamcached', 'failevents', 'moves', 'failed', 'reparam'):
+            if k_ in st: bump('event:' + k_, int(st[k_]))
+        mx = max(int(st.get('maxnodes', 0)), int(st.get('maxcount', 0)))
+        bump('maxlive:%s' % ('0-15' if mx < 16 else '16-31' if mx < 32 else '32-63' if mx < 64 else '64-95' if mx < 96 else '96+'))
+        if ev:
+            for e_ in ev.split(' ; '):
+                if e_: bump('model-op:' + e_[0])
         if c == LIBSTDCXX_NODE_HANDLE:
             info['libstdcxx_unordered_merge_leaks_allocator_copy'] = not head.startswith('ok'); continue
         if not head.startswith('ok'):
@@ -210,6 +318,9 @@ def oracle(ctx, cases, lines):
             info['h_violations_outside_claim'] += int(st.get('hviol', 0))
             if int(st.get('hviol', 0)) == 0 or int(st.get('misrouted', 0)) == 0:
                 bad.append((c, head, 'directed H-violating script no longer misroutes: model of allocate/deallocate is out of date'))
+            else:
+                info['shared_pool_misroute_reproduced_on_real_code'] = True
+                findings.append((SHARED_POOL_KEY, c, head))
             continue
         if int(st.get('hviol', 0)) != 0:
             bad.append((c, head, 'hypothesis H violated by a standard container / protocol-respecting script: single-object '
@@ -217,15 +328,19 @@ def oracle(ctx, cases, lines):
         if int(st.get('misrouted', 0)) != 0 or int(st.get('live', 0)) != 0 or int(st.get('errors', 0)) != 0:
             bad.append((c, head, 'a block was not returned to where it came from / base allocator blocks outstanding'))
         if int(st.get('maxnodes', 0)) >= 4 or int(st.get('pool', 0)) >= 4: ctx.nontrivial.add(c)
+    # the genuine momo defect F1 (known_findings.txt: key shared-pool-misroute) is reported on the violation path with its key
+    for key, c, head in findings:
+        ctx.violation('raw single-object block freed into the shared pool / pooled block handed to the base allocator (two value types of '
+                      'different pool parameters on one pool)', {'case': c, 'impl_output': head[:500]}, found_input=True, key=key)
     return bad, info
 
 
 def build(ctx):
-    res = ctx.cxx_many([('harness.cpp', 'harness_p0', ['-DPART=0', '-I', ctx.pdir]), ('harness.cpp', 'harness_p1', ['-DPART=1', '-I', ctx.pdir])])
-    if res.get('harness_p0') is None or res.get('harness_p1') is None:
+    res = ctx.cxx_many([('harness.cpp', 'harness_p%d' % k, ['-DPART=%d' % k, '-I', ctx.pdir]) for k in (0, 1, 2, 3)])
+    if any(res.get('harness_p%d' % k) is None for k in (0, 1, 2, 3)):
         ctx.stage('build-harness', False, getattr(ctx, 'last_cxx_error', ''))
         return None
-    return [res['harness_p0'], res['harness_p1']]
+    return [res['harness_p%d' % k] for k in (0, 1, 2, 3)]
 
 
 def model_check(ctx, cases, lines, name='events'):
@@ -293,13 +408,16 @@ def run(ctx):
     bad, info = oracle(ctx, cases, lines)
     ctx.stage('oracle', not bad and not crashed, (bad[0][2] if bad else '') + crashed)
     for (c, out, why) in bad[:3]:
-        ctx.violation(why, {'case': c, 'impl_output': out[:2000], 'cmd': 'echo "<case>" | build/C20/harness_p%d' % PART.get(c.split(' ', 1)[0], 1)}, found_input=True)
+        ctx.violation(why, {'case': c, 'impl_output': out[:2000], 'cmd': 'echo "<case>" | build/C20/harness_p%d' % part_of(c)}, found_input=True)
     have_model = ctx.stages.get('prove', {}).get('ok') and ctx.extract()
     if have_model:
         for (c, why) in model_check(ctx, cases, lines):
             ctx.violation('model and implementation disagree: ' + why, {'case': c}, found_input=True)
         # statement-level tie of line 119 on a real MemPool whose cache is not empty (the model's OpAllocFail reparam branch)
         rt = sorted(set(gen_retarget(ctx.rng) for _ in range(60 * scale)))
+        rt += ['retarget 32 16 24 8 %d 40 8' % k for k in (0, 1, 15, 16, 17, 31, 32, 33)] + ['retarget 32 16 40 8 16 3 1', 'retarget 32 16 3 1 16 40 8', 'retarget 32 16 48 16 17 4 4']
+        for sfx in ('4', '1', '127'):
+            rt += sorted(set(gen_retarget(ctx.rng, sfx) for _ in range(12 * scale)))
         mism, _ = ctx.correspond('retarget', rt, [exes[1]], [ctx.model_exe])
         ctx.tie_obligations.append({'name': 're-targeting statement (pool_allocator.h:119) on %d real pools with k freed blocks: count, parameters, '
                                             'cached count before/after and cache consistency as the model says' % len(rt), 'ok': not mism})
@@ -308,7 +426,7 @@ def run(ctx):
                           {'case': c, 'impl': a, 'model': b}, found_input=True)
     for c in cases[::max(1, len(cases) // 6)][:6]:
         ctx.add_sample(c[:300])
-    ctx.coverage['input_distribution'] = {k: sum(1 for c in cases if c.startswith(k + ' ')) for k in KINDS + ['direct', 'duo']}
+    ctx.coverage['input_distribution']['cases:retarget'] = len(rt) if have_model else 0
     ctx.coverage['observed'] = info
     return ctx.finish(rule=RULE)
 
